@@ -32,6 +32,17 @@ def run(ctx):
                 extra_rule="Oracle: dict with Status and exactly the fields the status allows, JSON Result; a raise only for retriable "
                            "checkpoint errors / invocation errors / malformed payload; the checkpoint thread is not alive at return; "
                            "handlers that catch Exception around durable calls included (a swallowed checkpoint failure must not become SUCCEEDED).")
+    # map / parallel calls in which a branch parks (callback, wait) before / after its siblings finish or fail: the invocation must
+    # still end with exactly one outcome (PENDING here) - never hang
+    import random
+    from checks.durable_common import run_campaign
+    from checks.executor_common import CURATED_CONC, conc_scenario
+    rng = random.Random(ctx.seed + 18)
+    items = [(CURATED_CONC[n], conc_scenario(rng, CURATED_CONC[n])) for n in
+             ("m12_park_then_decide", "m13_park_then_finish", "m14_park_then_fail", "m15_timed_and_indef", "m05_callbacks", "m04_waits_retries")
+             for _ in range(3 if ctx.quick else 12)]
+    for e in run_campaign(ctx, items):
+        oracles.c18(ctx, e)
     from checks import policy_tables
     policy_tables.wrapper_tables(ctx)
 
